@@ -192,3 +192,24 @@ reg('C11', True, 'other',
     'NOT decided: that serde_json prints every finite f64 in a form it parses back to the same bits (ryu/serde_json contract), '
     'non-finite values, file-system effects, svg crate rendering.',
     'sibling cross-check of generated writer/reader MIR + decoded format template + dataflow lineage of SVG placements')
+
+reg('C01', True, 'other',
+    'CLAUSES ONLY — does not decide that a scored state is overlap-free. Decides: Some(score) is dominated by the negative edge '
+    'of a test that reaches Intersect::intersects over the state\'s own placements; each positive intersects() result leads to '
+    '`return true` on every path; the in-cell nest is enumerate() x skip(index+1) over the same cartesian placements (every '
+    'unordered pair once); the periodic nest is placements x relative_positions x periodic_images(p, shells, zero=false) on '
+    'self.cell; every constant that can reach `shells` is >= 1; the prefilter tests a pair when d^2 <= T where d^2 is the squared '
+    'distance of the two placements\' positions and T - 4R^2 (R = enclosing radius) has only non-negative coefficients; '
+    'cartesian_positions = relative_positions().map(to_cartesian_isometry), relative_positions = sites.flat_map(positions).',
+    'NOT decided: that the searched shell count suffices for every reachable cell (geometric; the property text reports '
+    'counter-examples found only by adversarial search) and polygon-level geometry (C12).',
+    'CFG dominance + loop/adaptor-chain recognition + constant propagation + polynomial inequality on the prefilter threshold')
+
+reg('C03', True, 'other',
+    'CLAUSES. The returned payload is -sum/total_shapes; sum starts at 0 and is only updated as sum + w*energy(p,q) (2 sites); '
+    'the in-cell nest visits each unordered pair once and the periodic nest the full ordered product over all images without the '
+    'identity (each unordered image pair twice), so w(periodic) must be w(in-cell)/2 (lattice energy per cell); operands are '
+    'Cartesian placements; total_shapes = sum of site multiplicities.',
+    'NOT decided: convergence of the truncated image sum / that 3 shells cover the cutoff. Pair-energy asymmetry for unlike '
+    'particles is the known finding under C13.',
+    'loop-nest/adaptor-chain recognition + lifted accumulation weights + normal-form identity of the returned expression')
